@@ -1124,6 +1124,43 @@ def scalarise_records(fn: ast.AST, records: dict[str, list[str]], classes: dict 
     return done
 
 
+def _split_walrus_ifs(stmts: list[ast.stmt], is_helper_call: Callable[[ast.Call], bool]) -> list[ast.stmt]:
+    """`if (x := h(..)) is None: ...` -> `x = h(..)` ; `if x is None: ...` when the walrus is what the test evaluates first (so it is
+    evaluated exactly once, unconditionally, before anything else of the statement) and h is a helper that is read in place"""
+    out: list[ast.stmt] = []
+    for st in stmts:
+        if isinstance(st, ast.If):
+            holder: list[tuple[ast.AST, str | None, int | None]] = []
+
+            def first(e: ast.AST, parent: ast.AST | None, field: str | None, index: int | None) -> ast.NamedExpr | None:
+                if isinstance(e, ast.NamedExpr):
+                    holder.append((parent, field, index))  # type: ignore[arg-type]
+                    return e
+                if isinstance(e, ast.Compare):
+                    return first(e.left, e, "left", None)
+                if isinstance(e, ast.BoolOp):
+                    return first(e.values[0], e, "values", 0)
+                if isinstance(e, ast.UnaryOp) and isinstance(e.op, ast.Not):
+                    return first(e.operand, e, "operand", None)
+                return None
+
+            w = first(st.test, None, None, None)
+            if w is not None and isinstance(w.target, ast.Name) and isinstance(w.value, ast.Call) and is_helper_call(w.value):
+                parent, field, index = holder[0]
+                nm = ast.copy_location(ast.Name(id=w.target.id, ctx=ast.Load()), w)
+                if parent is None:
+                    st.test = nm
+                elif index is None:
+                    setattr(parent, field, nm)  # type: ignore[arg-type]
+                else:
+                    getattr(parent, field)[index] = nm  # type: ignore[arg-type]
+                a = ast.Assign(targets=[ast.Name(id=w.target.id, ctx=ast.Store())], value=w.value)
+                ast.fix_missing_locations(ast.copy_location(a, st))
+                out.append(a)
+        out.append(st)
+    return out
+
+
 def inline_helpers(fi: FuncInfo, select: Callable[[FuncInfo, ast.Call, ast.stmt], bool] | None = None, rounds: int = 3) -> tuple[FuncInfo, list[str]]:
     """copy of `fi` with selected single-exit helpers of the same class / module inlined at statement position; also returns
     the qualified names of the helpers that were inlined (for the evidence)"""
@@ -1139,6 +1176,7 @@ def inline_helpers(fi: FuncInfo, select: Callable[[FuncInfo, ast.Call, ast.stmt]
             nonlocal changed
             out: list[ast.stmt] = []
             skip_next = False
+            stmts = _split_walrus_ifs(stmts, lambda c: (lambda h_: h_ is not None and sel(h_, c, c))(_helper_of(view, c)))  # type: ignore[arg-type]
             for idx, st in enumerate(stmts):
                 if skip_next:
                     skip_next = False
